@@ -37,7 +37,7 @@ type GammaDistribution struct {
 /* -------------------------------------------------------------------------- */
 
 func NewGammaDistribution(alpha, beta Scalar) (*GammaDistribution, error) {
-  if alpha.GetFloat64() <= 0.0 || beta.GetFloat64() <= 0.0 {
+  if !(alpha.GetFloat64() > 0.0) || !(beta.GetFloat64() > 0.0) {
     return nil, fmt.Errorf("invalid parameters")
   }
   t  := alpha.Type()
